@@ -113,6 +113,7 @@ class Rec:
         self.why = why
         self.info = None
         self.last_tol = None
+        self.forces = None  # explicit force locations that are the data points in another order (None: forces at the data, in data order)
         self.excused = None  # per component: fitted points counted either-way at the last judged predict (scipy hull boundary)
         self.excused_nan = False
 
@@ -133,6 +134,23 @@ class Rec:
         return all(np.all(np.isfinite(d)) for d in self.data)
 
 
+def _forces_at_data(force_coords, east, north):
+    """
+    (forces are exactly the data points - possibly listed in another order, own float64 copies of them or None when they are not).
+    'Forces at the data points' does not depend on the order in which the points are listed.
+    """
+    try:
+        fe, fn = _seq(force_coords[0]), _seq(force_coords[1])
+    except Exception:  # noqa: BLE001
+        return False, None
+    if fe.shape != east.shape or fn.shape != north.shape:
+        return False, None
+    mine = np.stack([east, north], axis=1)
+    theirs = np.stack([fe, fn], axis=1)
+    same = np.array_equal(mine[np.lexsort((mine[:, 1], mine[:, 0]))], theirs[np.lexsort((theirs[:, 1], theirs[:, 0]))])
+    return bool(same), ((fe, fn) if same else None)
+
+
 def _lookup(obj):
     rec = _S.records.get(id(obj))
     if rec is None or rec.ref() is not obj:
@@ -151,10 +169,12 @@ def _green_info(rec):
     if rec.info is not None:
         return rec.info
     if rec.kind == "spline":
-        jac, _ = ref.spline_jacobian(rec.east, rec.north, rec.east, rec.north, rec.cfg["mindist"])
+        fe, fn = (rec.east, rec.north) if rec.forces is None else rec.forces
+        jac, _ = ref.spline_jacobian(rec.east, rec.north, fe, fn, rec.cfg["mindist"])
         data = rec.data[0]
     else:
-        jac, _ = ref.elastic_jacobian(rec.east, rec.north, rec.east, rec.north, rec.cfg["mindist"], rec.cfg["poisson"])
+        fe, fn = (rec.east, rec.north) if rec.forces is None else rec.forces
+        jac, _ = ref.elastic_jacobian(rec.east, rec.north, fe, fn, rec.cfg["mindist"], rec.cfg["poisson"])
         data = np.concatenate(rec.data)
     weights = None if rec.weights is None else np.concatenate(rec.weights)
     wfac = 1.0
@@ -322,36 +342,57 @@ def install(tap, run):
         if ev.exc is not None:
             return
         obj, a = ev.obj, ev.args
-        exact = obj.damping is None and obj.force_coords is None
-        why = "" if exact else ("damping" if obj.damping is not None else "forces not at the data")
-        remember(obj, Rec(obj, "spline", a["coordinates"], a["data"], a["weights"],
-                          {"mindist": float(obj.mindist), "damping": obj.damping}, exact, why))
+        rec = Rec(obj, "spline", a["coordinates"], a["data"], a["weights"], {"mindist": float(obj.mindist), "damping": obj.damping}, False)
+        at_data = obj.force_coords is None
+        if not at_data:
+            at_data, rec.forces = _forces_at_data(obj.force_coords, rec.east, rec.north)
+            if at_data:
+                run.count("explicit_forces_at_the_data:spline:" + ("same_order" if np.array_equal(rec.forces[0], rec.east) and np.array_equal(rec.forces[1], rec.north) else "other_order"))
+        rec.exact = obj.damping is None and at_data
+        rec.why = "" if rec.exact else ("damping" if obj.damping is not None else "forces not at the data")
+        remember(obj, rec)
 
     def pre_vspline_fit(ev):
         """
-        Are the forces of this fit documented to sit at its data? Yes when force_coords is None and no earlier *successful* fit fixed them
-        (they then stay where they are until the parameter is set again). The monitor tracks this over the object's history: the parameter is
-        read from the object only when it shows a value the monitor did not see at the end of the previous fit call (the user re-configured
-        it), so a fit() that raised - or anything cached at first use - cannot redefine the expectation.
+        Where the documentation puts the forces of this fit: the configured force_coords, or - when None - the data of the first
+        *successful* fit (they then stay there until the parameter is set again). Returns None for 'at the data of this fit'. The monitor
+        tracks this over the object's history: the parameter is read from the object only when it shows a value the monitor did not see at
+        the end of the previous fit call (the user re-configured it), so a fit() that raised - or anything cached at first use - cannot
+        redefine the expectation.
         """
         obj = ev.args["self"]
         track = _S.vforce.get(id(obj))
         current = obj.force_coords
         if track is None or track["ref"]() is not obj or current is not track["last_seen"]:
-            return {"first_fit": current is None}
-        return {"first_fit": bool(track["at_next_data"])}
+            try:
+                return {"expected": None if current is None else (_seq(current[0]), _seq(current[1]))}
+            except Exception:  # noqa: BLE001
+                return {"expected": (np.zeros(0), np.zeros(0))}
+        return {"expected": track["expected"]}
 
     def post_vspline_fit(ev):
         obj, a = ev.obj, ev.args
-        first_fit = bool(ev.pre["first_fit"])
-        _S.vforce[id(obj)] = {"ref": weakref.ref(obj), "at_next_data": first_fit and ev.exc is not None, "last_seen": obj.force_coords}
+        expected = ev.pre["expected"]
+        after = expected
+        if ev.exc is None and expected is None:
+            try:
+                after = (_seq(a["coordinates"][0]), _seq(a["coordinates"][1]))
+            except Exception:  # noqa: BLE001
+                after = None
+        _S.vforce[id(obj)] = {"ref": weakref.ref(obj), "expected": after, "last_seen": obj.force_coords}
         if ev.exc is not None:
             run.count("fit_raised:vspline:" + type(ev.exc).__name__)
             return
-        exact = obj.damping is None and first_fit and float(obj.mindist) > 0
-        why = "" if exact else ("damping" if obj.damping is not None else "forces not at these data (refit / given) or mindist=0")
-        remember(obj, Rec(obj, "vspline", a["coordinates"], a["data"], a["weights"],
-                          {"mindist": float(obj.mindist), "poisson": float(obj.poisson), "damping": obj.damping}, exact, why))
+        rec = Rec(obj, "vspline", a["coordinates"], a["data"], a["weights"],
+                  {"mindist": float(obj.mindist), "poisson": float(obj.poisson), "damping": obj.damping}, False)
+        at_data = expected is None
+        if not at_data:
+            at_data, rec.forces = _forces_at_data(expected, rec.east, rec.north)
+            if at_data:
+                run.count("explicit_forces_at_the_data:vspline:" + ("same_order" if np.array_equal(rec.forces[0], rec.east) and np.array_equal(rec.forces[1], rec.north) else "other_order"))
+        rec.exact = obj.damping is None and at_data and float(obj.mindist) > 0
+        rec.why = "" if rec.exact else ("damping" if obj.damping is not None else "forces not at these data (refit / given) or mindist=0")
+        remember(obj, rec)
 
     def judge_green(ev, monitor):
         if ev.exc is not None:
@@ -699,7 +740,7 @@ def _describe(obj):
     if isinstance(obj, verde.Trend):
         return "Trend(%s)" % obj.degree
     if isinstance(obj, verde.Spline):
-        return "Spline(mindist=%g)" % obj.mindist if obj.mindist else "Spline()"
+        return "Spline(mindist=%g)" % float(obj.mindist) if float(obj.mindist) else "Spline()"
     if isinstance(obj, verde.VectorSpline2D):
         return "VectorSpline2D"
     if isinstance(obj, verde.KNeighbors):
